@@ -353,8 +353,18 @@ class Engine:
                 st.store[root] = ("obj", ("S", nm))
         rows = []
         self.paths = 0
+        self.callee_backedges = []
         for st2, kind, ret, site in self.run(frame, start_block, st, 0, stop_blocks=frozenset(stop_blocks)):
             rows.append(Row(st2, kind, ret, site))
+        # loop-body paths of loops that live in an inlined callee (e.g. a loop moved into a helper): they end at the callee's
+        # back edge and are reported as loop-body rows of this table, exactly like the bodies of the function's own loops
+        seen = set()
+        for st2, site in self.callee_backedges:
+            k = (tuple(st2.cond), len(st2.events), site)
+            if k in seen:
+                continue
+            seen.add(k)
+            rows.append(Row(st2, "backedge", None, site))
         return rows
 
     def new_frame(self, fn):
@@ -922,7 +932,9 @@ class Engine:
                 s2.events.append(("panic-in-callee", target, rsite))
                 yield s2, PANIC
             elif kind == "backedge":
-                # a callee path that ends at its own loop back edge carries no return
+                # a callee path that ends at its own loop back edge carries no return; it is a loop-body row of the table
+                if hasattr(self, "callee_backedges") and not self.in_discovery:
+                    self.callee_backedges.append((s2, rsite))
                 continue
             else:
                 continue
